@@ -561,7 +561,7 @@ func runC15_5(c *core.Ctx) {
 		case *ast.AssignStmt:
 			if len(y.Lhs) == 1 && len(y.Rhs) == 1 {
 				if flow.ObjOf(f.Info, y.Lhs[0]) == resObj {
-					if ie, ok := ast.Unparen(y.Rhs[0]).(*ast.IndexExpr); ok && flow.FieldOf(f.Info, ie.X) == loops {
+					if ie, ok := ast.Unparen(y.Rhs[0]).(*ast.IndexExpr); ok && flow.FieldOf(f.Info, seeThrough(f, ie.X)) == loops {
 						if cv := flow.ConstOf(f.Info, ie.Index); cv != nil && constant.Sign(cv) == 0 {
 							initEl = true
 						}
@@ -652,7 +652,7 @@ func runC15_5(c *core.Ctx) {
 			}
 			isElemExpr := func(e ast.Expr) bool {
 				ie, ok := ast.Unparen(e).(*ast.IndexExpr)
-				return ok && flow.FieldOf(f.Info, ie.X) == loops && flow.ObjOf(f.Info, ie.Index) == iv
+				return ok && flow.FieldOf(f.Info, seeThrough(f, ie.X)) == loops && flow.ObjOf(f.Info, ie.Index) == iv
 			}
 			// locals of the body bound once to loops[i]
 			elemVars := map[types.Object]bool{}
@@ -686,7 +686,7 @@ func runC15_5(c *core.Ctx) {
 	if loopX != nil {
 		rx = ast.Unparen(loopX)
 	}
-	if se, ok := rx.(*ast.SliceExpr); ok && flow.FieldOf(f.Info, se.X) == loops && se.High == nil {
+	if se, ok := rx.(*ast.SliceExpr); ok && flow.FieldOf(f.Info, seeThrough(f, se.X)) == loops && se.High == nil {
 		if se.Low == nil {
 			okRange = true
 		} else if cv := flow.ConstOf(f.Info, se.Low); cv != nil {
@@ -694,7 +694,7 @@ func runC15_5(c *core.Ctx) {
 				okRange = true
 			}
 		}
-	} else if flow.FieldOf(f.Info, rx) == loops {
+	} else if flow.FieldOf(f.Info, seeThrough(f, rx)) == loops {
 		okRange = true
 	}
 	c.Check(okRange, f.Name, "range over the remaining loops", loopPos, "every loop after the first is examined", "the range does not cover all remaining event loops (a loop is never considered)")
@@ -783,7 +783,7 @@ func countedLoops(f *fn, loops *types.Var) map[types.Object]*ast.ForStmt {
 			return false
 		}
 		id, ok := call.Fun.(*ast.Ident)
-		return ok && id.Name == "len" && flow.FieldOf(f.Info, call.Args[0]) == loops
+		return ok && id.Name == "len" && flow.FieldOf(f.Info, seeThrough(f, call.Args[0])) == loops
 	}
 	ast.Inspect(f.Decl.Body, func(n ast.Node) bool {
 		fs, ok := n.(*ast.ForStmt)
@@ -825,7 +825,7 @@ func countedLoops(f *fn, loops *types.Var) map[types.Object]*ast.ForStmt {
 					if flow.ObjOf(f.Info, l) == flow.ObjOf(f.Info, y) && flow.ObjOf(f.Info, y) != nil {
 						call, ok := ast.Unparen(init.Rhs[k]).(*ast.CallExpr)
 						if ok && len(call.Args) == 1 {
-							if id, ok := call.Fun.(*ast.Ident); ok && id.Name == "len" && flow.FieldOf(f.Info, call.Args[0]) == loops {
+							if id, ok := call.Fun.(*ast.Ident); ok && id.Name == "len" && flow.FieldOf(f.Info, seeThrough(f, call.Args[0])) == loops {
 								return true
 							}
 						}
